@@ -659,6 +659,15 @@ func (t *Tree) applyBreak(n *Node, rule string) bool {
 		msg.Transactions[0].TxOut[0].Value = Subsidy(n.Height, t.Params) + n.fees + 1
 		msg.Header.MerkleRoot = merkleRoot(msg.Transactions)
 		n.Self = InvalidConnect
+	case "non-final-coinbase":
+		// a rule on the block BODY that depends on the block's position: every transaction, the
+		// coinbase included, must be final at the block's height (lock time = height + 10, sequence
+		// not final). The witness commitment does not cover the coinbase, so it stays right.
+		cb := msg.Transactions[0]
+		cb.TxIn[0].Sequence = 0
+		cb.LockTime = uint32(n.Height) + 10
+		msg.Header.MerkleRoot = merkleRoot(msg.Transactions)
+		n.Self = InvalidContext
 	default:
 		panic("unknown break rule " + rule)
 	}
